@@ -453,10 +453,15 @@ def run_block(stmts, env: Dict[str, object], on_call, depth=0):
             for t in targets:
                 if isinstance(t, ast.Name):
                     env[t.id] = v
+                elif isinstance(t, ast.Attribute) and A.norm(t):
+                    env[A.norm(t)] = v  # `self.x = v`: later reads of self.x see it (atoms are looked up by their text)
                 elif isinstance(t, ast.Tuple):
-                    for e in t.elts:
+                    vs = list(v) if isinstance(v, (tuple, list)) and len(v) == len(t.elts) else [UNKNOWN] * len(t.elts)
+                    for e, x in zip(t.elts, vs):
                         if isinstance(e, ast.Name):
-                            env[e.id] = UNKNOWN
+                            env[e.id] = x
+                        elif isinstance(e, ast.Attribute):
+                            env[A.norm(e)] = x
         elif isinstance(st, ast.If):
             taken = bool(peval(st.test, env))
             if not run_block(st.body if taken else st.orelse, env, on_call, depth + 1):
